@@ -1,5 +1,6 @@
 import Abverif.Proofs.C03
 import Abverif.Proofs.Lemmas.SchemaTotal
+import Abverif.Proofs.Lemmas.SchemaStrict
 import Abverif.Proofs.Lemmas.UriGrammar
 /-
 C08 — untrusted WAMP input is either a valid message or a protocol error.  Property theorems.
@@ -137,6 +138,135 @@ theorem not_parseTotalTyped : ¬ ParseTotalTyped oracles := by
     rw [hw] at this
     simp [Allowed, ErrClass.allowed] at this
 
+/-! ## strictness: what an accepted message satisfies -/
+
+/-- the regenerated bound of `check_or_raise_id` is the protocol's 2^53 -/
+theorem id_bound_is_2_53 : idBound = 2 ^ 53 := by decide
+
+theorem idOk_iff_spec (i : Int) : idOk i = specIdOk i := by
+  simp [idOk, specIdOk, id_bound_is_2_53]
+
+
+/-- **full statement** (C08, in terms of the Spec): nothing is accepted that has an id outside [0, 2^53], a URI outside
+the *intended* grammar, a wrongly typed option, or a type code that is not the protocol's.  FALSE of today's code:
+F2 (URIs), ids in options that are only checked for `int`, `force_reregister: 1`, UNREGISTER's unchecked
+`forward_for` — witnesses below. -/
+def ParseStrictSpec : Prop :=
+  ∀ (v : WVal) (σ : Schema) (m : Msg), unserializeOne oracles v = .ok (σ, m) → σ.specViolations Uri.Spec.ok m = []
+
+/-- every class with an args/kwargs/payload tail carries the three payload assertions -/
+theorem schemas_wfCross : ∀ σ ∈ all25, σ.wfCross = true := by
+  have h : all25.all (fun σ => σ.wfCross) = true := by decide
+  exact fun σ hσ => List.all_eq_true.mp h σ hσ
+
+/-- **partial form, proved for all inputs**: a message accepted by `parse` is `strict` — every positional id lies in
+[0, 2^53] (regenerated bound = 2^53, `id_bound_is_2_53`), every URI is accepted by the regenerated recogniser
+selected by its flags (REGISTER: by the `match` option), every positional `str`/`dict`/enum has its type, every
+option holds its default or a value that passes its type check (`OTy.valid`), args/kwargs/payload and the `enc_*`
+triple have the shapes the constructor asserts, and the attribute names are exactly the class's.
+What is missing w.r.t. `ParseStrictSpec`: the recogniser is today's regex, not the intended grammar (closed by
+`uri_equiv_partial`), and `OTy.valid` is the *checked* type: ids inside options are only `int`, `boolLoose` admits
+0/1, `forwardFor false` admits any list (the witnesses below). -/
+theorem parse_strict (σ : Schema) (hσ : σ ∈ roundTrip23) (O : Oracles) (w : List WVal) (m : Msg)
+    (h : σ.parse O w = .ok m) : σ.strict O m = true := by
+  have hall : σ ∈ all25 := (List.mem_filter.mp hσ).1
+  have hnr : σ.noRoles = true := (List.mem_filter.mp hσ).2
+  have hwf : σ.wf = true := by
+    have hh : all25.all (fun σ => σ.wf) = true := by decide
+    exact List.all_eq_true.mp hh σ hall
+  exact parse_strict_core σ O w m hwf hnr (schemas_wfCross σ hall) h
+
+/-- ids: a positional id of an accepted message is in the protocol's range -/
+theorem parse_strict_ids (σ : Schema) (hσ : σ ∈ roundTrip23) (O : Oracles) (w : List WVal) (m : Msg)
+    (h : σ.parse O w = .ok m) (f : Str) (hf : PosStep.id f ∈ σ.pos) :
+    ∃ i, m.get f = .int i ∧ 0 ≤ i ∧ i ≤ 2 ^ 53 := by
+  have hs := (strict_parts (parse_strict σ hσ O w m h)).2.1 _ hf
+  simp only [PosStep.strict] at hs
+  split at hs
+  · rename_i i hi
+    refine ⟨i, hi, ?_⟩
+    rw [idOk_iff_spec] at hs
+    simp only [specIdOk, Bool.and_eq_true, decide_eq_true_eq] at hs
+    exact ⟨hs.1, by simpa using hs.2⟩
+  · simp at hs
+
+/-- URIs: a positional URI of an accepted message passed the regenerated pattern for its flags -/
+theorem parse_strict_uris (σ : Schema) (hσ : σ ∈ roundTrip23) (O : Oracles) (w : List WVal) (m : Msg)
+    (h : σ.parse O w = .ok m) (f : Str) (fl : UriFlags) (hf : PosStep.uri f fl ∈ σ.pos) :
+    uriOk O fl (m.get f) = true :=
+  (strict_parts (parse_strict σ hσ O w m h)).2.1 _ hf
+
+/-- witnesses that `ParseStrictSpec` fails today (each is a concrete accepted input with a Spec violation) -/
+theorem strict_witness_trailing_newline :
+    (Rx._URI_PAT_LOOSE_NON_EMPTY).anchor = .dollar →
+    (match unserializeOne oracles (.list [.int 48, .int 1, .dict [], .str cs!"a.b\n"]) with
+     | .ok (σ, m) => !(σ.specViolations Uri.Spec.ok m).isEmpty
+     | .error _ => false) = true := by decide +kernel
+
+theorem strict_witness_force_reregister :
+    (match unserializeOne oracles (.list [.int 64, .int 1, .dict [(cs!"force_reregister", .int 1)], .str cs!"a.b"]) with
+     | .ok (σ, m) => !(σ.specViolations Uri.Spec.ok m).isEmpty
+     | .error _ => false) = true := by decide +kernel
+
+theorem strict_witness_option_id_range :
+    (match unserializeOne oracles (.list [.int 16, .int 1, .dict [(cs!"exclude", .list [.int (-1)])], .str cs!"a.b"]) with
+     | .ok (σ, m) => !(σ.specViolations Uri.Spec.ok m).isEmpty
+     | .error _ => false) = true := by decide +kernel
+
+theorem strict_witness_unregister_forward_for :
+    ffFixed_Unregister = false →
+    (match unserializeOne oracles (.list [.int 66, .int 1, .int 2, .dict [(cs!"forward_for", .list [.int 1])]]) with
+     | .ok (σ, m) => !(σ.specViolations Uri.Spec.ok m).isEmpty
+     | .error _ => false) = true := by decide +kernel
+
+theorem not_parseStrictSpec : ¬ ParseStrictSpec := by
+  intro h
+  have hw := strict_witness_force_reregister
+  split at hw
+  · rename_i σ m he
+    have := h _ σ m he
+    simp [this] at hw
+  · simp at hw
+
+/-! ## re-parse: the re-marshalled form of an accepted message -/
+
+/-- **full statement**: whatever is accepted re-marshals to a form that parses back to the same message
+("equivalent to the input": equal up to omitted defaults, dropped unknown keys and key order).  FALSE today. -/
+def ReparseEquiv (σ : Schema) : Prop :=
+  ∀ (w : List WVal) (m : Msg), σ.parse oracles w = .ok m → σ.parse oracles (σ.marshal m) = .ok m
+
+/-- **partial form**: it holds whenever the accepted message satisfies the residual conditions, i.e. carries none of
+the values `marshal` does not write (a falsy value under an `if self.x:` option, empty args/kwargs/payload, a
+non-list `args` of PUBLISH, …) -/
+theorem reparse_equiv_partial (σ : Schema) (hσ : σ ∈ roundTrip23) (w : List WVal) (m : Msg)
+    (h : σ.parse oracles w = .ok m) (hres : σ.residual oracles m = true) :
+    σ.parse oracles (σ.marshal m) = .ok m := by
+  apply parse_marshal σ oracles (schemas_wf σ (List.mem_filter.mp hσ).1) m
+  unfold Schema.Valid Schema.valid
+  rw [parse_strict σ hσ oracles w m h, hres]
+  rfl
+
+example : Schemas.call.parse oracles (Schemas.call.marshal exCall) = .ok exCall :=
+  reparse_equiv_partial _ (mem_roundTrip23 (by simp [all25]) (by decide)) (Schemas.call.marshal exCall) exCall
+    (parse_marshal _ _ (schemas_wf _ (by simp [all25])) _ (by decide +kernel))
+    (by decide +kernel)
+
+/-- witness: `[16,1,{},"a.b","s",{}]` is accepted by PUBLISH (args may be a `str` there), re-marshals to
+`[16,1,{},"a.b","s"]`, which is read as a `str` payload and trips the constructor -/
+theorem reparse_witness_publish :
+    (match Schemas.publish.parse oracles [.int 16, .int 1, .dict [], .str cs!"a.b", .str cs!"s", .dict []] with
+     | .ok m => errClass? (Schemas.publish.parse oracles (Schemas.publish.marshal m)) == some .assertion
+     | .error _ => false) = true := by decide +kernel
+
+theorem not_reparseEquiv_publish : ¬ ReparseEquiv Schemas.publish := by
+  intro h
+  have hw := reparse_witness_publish
+  split at hw
+  · rename_i m he
+    rw [h _ m he] at hw
+    simp [errClass?] at hw
+  · simp at hw
+
 /-! ## envelope: type codes and element counts -/
 
 /-- an accepted object is a list whose first element is an `int` type code that `MESSAGE_TYPE_MAP` knows, dispatched
@@ -169,12 +299,6 @@ theorem accepted_envelope (O : Oracles) (v : WVal) (σ : Schema) (m : Msg) (h : 
           simp [fail, bind, Except.bind] at hp
   · simp [fail] at h
   · simp [fail] at h
-
-/-- the regenerated bound of `check_or_raise_id` is the protocol's 2^53 -/
-theorem id_bound_is_2_53 : idBound = 2 ^ 53 := by decide
-
-theorem idOk_iff_spec (i : Int) : idOk i = specIdOk i := by
-  simp [idOk, specIdOk, id_bound_is_2_53]
 
 /-- every code in the regenerated `MESSAGE_TYPE_MAP` is the `MESSAGE_TYPE` of the class it maps to, and there are 25 -/
 theorem typeMap_consistent : typeMap.map (fun e => (e.2, e.1)) = messageTypes := by decide
